@@ -212,7 +212,7 @@ func cmdCheck(args []string) int {
 			if *only != "" && !strings.Contains(key, *only) {
 				continue
 			}
-			if strings.HasPrefix(key, "field:") || strings.HasPrefix(key, "type:") || strings.Contains(key, "/") || c.Trusted && funcs[key] == nil {
+			if strings.HasPrefix(key, "field:") || strings.HasPrefix(key, "type:") || strings.HasPrefix(key, "param:") || strings.Contains(key, "/") || c.Trusted && funcs[key] == nil {
 				units = append(units, &UnitResult{Name: pi.short + "." + key, Func: key, Pkg: pi.path, Props: c.Props, Trusted: true})
 				continue
 			}
@@ -230,7 +230,7 @@ func cmdCheck(args []string) int {
 		}
 	}
 	tGen := time.Since(t0) - tLoad
-	to := 10
+	to := 20
 	if *tier == "thorough" {
 		to = 60
 	}
@@ -293,7 +293,7 @@ func cmdCheck(args []string) int {
 			fe["callee_contracts_used"] = u.Callees
 		}
 		for cc := range w.usedContracts[u.unit] {
-			if cc.Trusted || strings.Contains(cc.Func, "/") || isLibKey(cc.Func) || strings.HasPrefix(cc.Func, "type:") || strings.HasPrefix(cc.Func, "field:") {
+			if cc.Trusted || strings.Contains(cc.Func, "/") || isLibKey(cc.Func) || strings.HasPrefix(cc.Func, "type:") || strings.HasPrefix(cc.Func, "field:") || strings.HasPrefix(cc.Func, "param:") {
 				addAsm("assumed contract (trusted, body not verified) used: " + cc.Func)
 			}
 		}
